@@ -44,9 +44,18 @@ pub fn el_op(rng: &mut Rng) -> Op {
             if rng.chance(1, 8) {
                 Op::ClearEndTagHandlers
             } else {
-                Op::OnEndTag((0..rng.range(0, 2)).map(|_| token_op(rng)).collect())
+                Op::OnEndTag((0..rng.range(0, 2)).map(|_| end_tag_op(rng)).collect())
             }
         }
+    }
+}
+
+/// what an end-tag handler may do: a token op or a rename of the end tag only
+pub fn end_tag_op(rng: &mut Rng) -> Op {
+    if rng.chance(1, 4) {
+        Op::SetTagName((*rng.pick(&["q", "Q", "x-y", "ab1", "renamed"])).to_string())
+    } else {
+        token_op(rng)
     }
 }
 
